@@ -14,6 +14,7 @@ type libSpec struct {
 	fn      func(s *State, c *ssa.CallCommon, args []Val, where string) Val
 	allocs  bool
 	inplace bool
+	ghosts  []string
 }
 
 var libSpecs map[string]*libSpec
@@ -73,7 +74,7 @@ func initLibSpecs() {
 		s.trust("strings.SplitN(s, sep, 2) with non-empty sep: [s] if sep not in s, else [before first sep, after first sep]")
 		rt := c.Signature().Results().At(0).Type()
 		if constIndexStr(args[2].Terms[0]) != 2 || args[1].Const == nil || *args[1].Const == "" {
-			s.bumpAlloc()
+			s.bumpAllocTyped(resultTags(c), false)
 			return s.freshResult(c, "splitn")
 		}
 		x, sep := args[0].Terms[0], args[1].Terms[0]
@@ -95,7 +96,7 @@ func initLibSpecs() {
 			return mkSliceOf(rt, n, arr)
 		}
 		if args[1].Const == nil {
-			s.bumpAlloc()
+			s.bumpAllocTyped(resultTags(c), false)
 			return s.freshResult(c, "split")
 		}
 		s.trust("strings.Split(s, sep) with non-empty constant sep: length = 1 + number of non-overlapping sep; part 0 = text before the first sep; part 1 = text between the first and the second sep (or to the end); further parts uninterpreted")
@@ -136,7 +137,7 @@ func initLibSpecs() {
 		return or(and(eq(a[0].Terms[0], a[1].Terms[0])), app("err_is", a[0].Terms[0], a[1].Terms[0]))
 	})
 	L["errors.New"] = &libSpec{allocs: true, fn: func(s *State, c *ssa.CallCommon, args []Val, where string) Val {
-		e := s.allocRef("err")
+		e := s.allocRef("err", "$error")
 		s.assume(eq(app("err_msg", e), args[0].Terms[0]))
 		s.eng.counter++
 		q := sym(fmt.Sprintf("t?%d", s.eng.counter))
@@ -153,7 +154,7 @@ func initLibSpecs() {
 	L["fmt.Errorf"] = &libSpec{allocs: true, fn: func(s *State, c *ssa.CallCommon, args []Val, where string) Val {
 		s.trust("fmt.Errorf: fresh non-nil error e with err_msg(e) = formatted text; errors.Is(e,t) iff a %w operand w has w == t or errors.Is(w,t)")
 		txt, wrapped := s.format(args[0], args[1], where)
-		e := s.allocRef("err")
+		e := s.allocRef("err", "$error")
 		s.assume(eq(app("err_msg", e), txt))
 		s.eng.counter++
 		q := sym(fmt.Sprintf("t?%d", s.eng.counter))
@@ -165,7 +166,7 @@ func initLibSpecs() {
 		return Val{T: c.Signature().Results().At(0).Type(), Terms: []string{e}}
 	}}
 	out := func(kind string) *libSpec {
-		return &libSpec{fn: func(s *State, c *ssa.CallCommon, args []Val, where string) Val {
+		return &libSpec{ghosts: []string{"$out", "$compout", "$out_other"}, fn: func(s *State, c *ssa.CallCommon, args []Val, where string) Val {
 			s.trust("fmt.Fprint/Fprintf/Fprintln(w, ...) appends the formatted text to the ghost output of w ($out for Writer, $compout for completionWriter); no other effect")
 			var txt string
 			switch kind {
@@ -333,12 +334,23 @@ func (s *State) ghostGet(name string, t types.Type) Val {
 	}
 	v := Val{T: t}
 	for _, l := range shapeOf(t) {
-		c := sym("G0:" + name + l.Name)
-		s.cmds = append(s.cmds, fmt.Sprintf("(declare-const %s %s)", c, l.Sort))
-		v.Terms = append(v.Terms, c)
+		v.Terms = append(v.Terms, s.ghostConst(name, l))
 	}
 	s.ghost[name] = v
 	return v
+}
+
+// ghostConst declares (once per path) the entry-state constant of a ghost variable leaf.
+func (s *State) ghostConst(name string, l Leaf) string {
+	c := sym("G0:" + name + l.Name)
+	decl := fmt.Sprintf("(declare-const %s %s)", c, l.Sort)
+	for _, cm := range s.cmds {
+		if cm == decl {
+			return c
+		}
+	}
+	s.cmds = append(s.cmds, decl)
+	return c
 }
 
 func (s *State) mutexOp(m Val, lock bool, where string) {
@@ -389,7 +401,7 @@ func specFindStringSubmatch(s *State, c *ssa.CallCommon, args []Val, where strin
 	}
 	if !ok {
 		s.eng.assumptionsUsed["regexp with an unrecognised pattern: result opaque"] = true
-		s.bumpAlloc()
+		s.bumpAllocTyped(resultTags(c), false)
 		return s.freshResult(c, "regex")
 	}
 	s.trust("regexp " + pat + ": closed form (match iff s starts with '-', the longest '='-free prefix L of the text after the dashes is non-empty" +
